@@ -3,6 +3,7 @@ package main
 import (
 	"errors"
 	"fmt"
+	"math/big"
 	"strconv"
 	"strings"
 	"time"
@@ -19,22 +20,38 @@ type Msg struct {
 	Rec  execution.Record
 }
 
+// exact nanoseconds since the Unix epoch as a decimal string — NOT limited to the int64 range of Time.UnixNano
+// (instants before 1677-09-21 or after 2262-04-11 are legal event times and watermarks)
+var bigE9 = big.NewInt(1000000000)
+
+func nanosOf(t time.Time) string {
+	n := big.NewInt(t.Unix())
+	n.Mul(n, bigE9)
+	n.Add(n, big.NewInt(int64(t.Nanosecond())))
+	return n.String()
+}
+
+func timeOfNanos(s string) time.Time {
+	n, ok := new(big.Int).SetString(s, 10)
+	if !ok {
+		panic("bad instant " + s)
+	}
+	q, r := new(big.Int).DivMod(n, bigE9, new(big.Int))
+	return time.Unix(q.Int64(), r.Int64()).UTC()
+}
+
 func encodeEt(t time.Time) string {
 	if t.IsZero() {
 		return "z"
 	}
-	return strconv.FormatInt(t.UnixNano(), 10)
+	return nanosOf(t)
 }
 
 func parseEt(s string) time.Time {
 	if s == "z" {
 		return time.Time{}
 	}
-	ns, err := strconv.ParseInt(s, 10, 64)
-	if err != nil {
-		panic(err)
-	}
-	return time.Unix(0, ns).UTC()
+	return timeOfNanos(s)
 }
 
 func EncodeRecord(r execution.Record) string {
@@ -59,7 +76,7 @@ func ParseRecord(toks []string) (execution.Record, []string) {
 
 func EncodeMsg(m Msg) string {
 	if m.IsWM {
-		return "W" + strconv.FormatInt(m.WM.UnixNano(), 10)
+		return "W" + nanosOf(m.WM)
 	}
 	return EncodeRecord(m.Rec)
 }
@@ -80,11 +97,7 @@ func ParseMsgs(toks []string) []Msg {
 			continue
 		}
 		if toks[0][0] == 'W' {
-			ns, err := strconv.ParseInt(toks[0][1:], 10, 64)
-			if err != nil {
-				panic(err)
-			}
-			out = append(out, Msg{IsWM: true, WM: time.Unix(0, ns).UTC()})
+			out = append(out, Msg{IsWM: true, WM: timeOfNanos(toks[0][1:])})
 			toks = toks[1:]
 			continue
 		}
